@@ -381,8 +381,18 @@ inductive SendKind where
   | pipe         -- BrokenPipeError from `send`: swallowed; reading the response finds EOF (RemoteDisconnected)
   deriving DecidableEq, Repr, Inhabited
 
+/-- the TCP connection to the first hop is open, but the TLS handshake with that hop — the HTTPS proxy
+of a proxied pool (forwarding: `HTTPSConnection.connect` via `_validate_conn`; tunnelling:
+`_connect_tls_proxy` via `_prepare_proxy`), the origin itself on a direct https pool — fails.  Nothing
+of the request has been written, and `conn.has_connected_to_proxy` is still `False`. -/
+inductive HandshakeKind where
+  | timeout      -- socket.timeout in `do_handshake`: `_raise_timeout` has made it a ReadTimeoutError
+  | reset        -- ConnectionResetError in `do_handshake`
+  deriving DecidableEq, Repr, Inhabited
+
 inductive Outcome where
   | connectError (k : ConnKind)
+  | handshakeError (k : HandshakeKind)
   | sendError (k : SendKind)
   | readError (k : ReadKind)
   | otherError                                  -- ssl.SSLError while reading → urllib3 SSLError
@@ -398,6 +408,7 @@ def Outcome.isError : Outcome → Bool
 /-- did the request go on the wire in this attempt -/
 def Outcome.sent : Outcome → Bool
   | .connectError _ => false
+  | .handshakeError _ => false
   | _ => true
 
 /-- `bool(response.get_redirect_location())`:
@@ -428,6 +439,12 @@ structure Raised where
 def raised : Outcome → Raised
   | .connectError .timeout => ⟨.connectTimeout, true, false, true⟩
   | .connectError .refused => ⟨.newConnection, true, false, true⟩
+  -- `except (SocketTimeout, BaseSSLError) as e: self._raise_timeout(...)` (in `_make_request` around
+  -- `_validate_conn`, in `urlopen` around `_prepare_proxy`) has replaced the timeout by ReadTimeoutError; behind a
+  -- proxy the wrapping happens in `_make_request`'s own handler (forwarding) or in `urlopen`'s (tunnelling) —
+  -- `urlopen`'s handler leaves a `ProxyError` alone (it is none of OSError / TimeoutError / SSLError / HTTPException)
+  | .handshakeError .timeout => ⟨.readTimeout, true, false, true⟩
+  | .handshakeError .reset => ⟨.connectionReset, true, true, true⟩
   -- the socket is open (and `has_connected_to_proxy` set) when `send` fails; `socket.timeout` is an OSError
   | .sendError .timeout => ⟨.socketTimeout, true, true, false⟩
   | .sendError .reset => ⟨.connectionReset, true, true, false⟩       -- raised by `getresponse` after the swallow
